@@ -199,6 +199,10 @@ def generic(ctx, bj, body, site):
         return int(ops[1]) < int(ops[0]), "constant index %s into an array of %s entries" % (ops[1], ops[0])
     if k == "assert" and what == "OverflowNeg" and ops and re.fullmatch(r"\(([0-9]+) as isize\)", ops[0] or ""):
         return True, "negation of a small non-negative constant cannot overflow"
+    if k == "assert" and what == "OverflowNeg" and ops and re.fullmatch(r"\([\w:]+(::<[^()]*>)?::LAST_FIELD_OFFSET as (isize)?\)", ops[0] or ""):
+        # generic definitions: the constant is not evaluated in the polymorphic body
+        return lemma("LAST_FIELD_OFFSET is the offset of a field inside the type (E1 L3.last-field-offset: equal to rustc's field offset for the "
+                     "instantiations of the corpus), hence <= isize::MAX: the cast is non-negative and its negation cannot overflow")(ctx, bj, body, site)
     if k == "assert" and what in ("DivisionByZero", "RemainderByZero") and ops and re.fullmatch(r"[0-9]+", ops[-1] or ""):
         return int(ops[-1]) != 0, "constant divisor %s" % ops[-1]
     if k == "assert" and what in ("DivisionByZero", "RemainderByZero") and site.get("cond"):
